@@ -26,6 +26,7 @@ import (
 	"sort"
 	"strconv"
 	"strings"
+	"time"
 
 	"github.com/robfig/soy"
 	"github.com/robfig/soy/ast"
@@ -223,18 +224,19 @@ func (c *xctx) minLevel() int {
 // ---------- one case ----------
 
 type xcase struct {
-	tree     *xe // nil in a replay
-	ctx      *xctx
-	text     string // expression source
-	src      string // file source
-	treeS    string // the tree, Spec syntax
-	derivedS string // the Spec expression that decides the output
-	astS     string // the tree the parser must build at the position
-	closed   bool   // no data reference, no global
-	ij       data.Map
-	dataMap  data.Map
-	globals  data.Map
-	group    string
+	tree          *xe // nil in a replay
+	ctx           *xctx
+	text          string // expression source
+	src           string // file source
+	treeS         string // the tree, Spec syntax
+	derivedS      string // the Spec expression that decides the output
+	astS          string // the tree the parser must build at the position
+	closed        bool   // no data reference, no global
+	emptyIdentity bool   // compares two possibly empty fresh lists
+	ij            data.Map
+	dataMap       data.Map
+	globals       data.Map
+	group         string
 }
 
 type c01Case struct {
@@ -417,6 +419,7 @@ func runC01(e *env) {
 			c.astS = ctx.astOf(tree).sexp()
 		}
 		c.closed = !tree.uses("ref") && !tree.uses("ij") && !tree.uses("global")
+		c.emptyIdentity = tree.comparesEmptyFresh()
 		st.attr = strings.Contains(ctx.name, "-attr")
 		c.text = tree.src(st, 0)
 		if st.attr && strings.ContainsAny(c.text, "\\\"\n\r\t") {
@@ -459,8 +462,12 @@ func runC01(e *env) {
 			add("nesting-redundant", xClone(t), printCtxs[i%len(printCtxs)], d0, 40)
 		}
 	}
+	// 3b. NaN, infinities and the negative zero under every operator that looks at a number
+	for i, t := range g.specialFloats() {
+		add("special-floats", t, printCtxs[i%len(printCtxs)], d0, 0)
+	}
 	// 4. every position x every kind of expression (shallow)
-	for rep := 0; rep < 6*e.scale; rep++ {
+	for rep := 0; rep < 40*e.scale; rep++ {
 		for ci := range ctxs {
 			k := ctxs[ci].want
 			if k == xkAny {
@@ -502,6 +509,10 @@ func c01Run(e *env, cases []*xcase) {
 	resp := e.m.Batch(reqs)
 	for i, c := range cases {
 		c01One(e, c, parseSpec(resp[2*i]), parseSpec(resp[2*i+1]))
+		if c01Abort {
+			e.res.Note("run stopped after case %d: a render did not return", i)
+			return
+		}
 	}
 }
 
@@ -572,7 +583,13 @@ func c01One(e *env, c *xcase, sd, st specResult) {
 	}
 
 	// --- render ---
-	out, rerr := render(tofu, "t.m", c.dataMap, c.ij)
+	out, rerr, hung := renderWithin(tofu, "t.m", c.dataMap, c.ij, 5*time.Second)
+	if hung {
+		// the render goroutine is still running (and may be allocating): report and stop the run
+		c01Fail(e, hx.Violation{Kind: "oracle", What: "Render does not return within 5 s", Case: rc()}, "")
+		c01Abort = true
+		return
+	}
 	if isPanicErr(rerr) {
 		c01Fail(e, hx.Violation{Kind: "oracle", What: "panic escaped Render", Case: rc(), Observed: errStr(rerr)}, "")
 		return
@@ -580,6 +597,10 @@ func c01One(e *env, c *xcase, sd, st specResult) {
 
 	// --- expected output from the Spec ---
 	ex := c.expect(e, sd)
+	if c.emptyIdentity {
+		// ledger I12: the statement does not fix the identity of an empty list ([] == [] is true here, false in the reference implementations)
+		ex = expectation{kind: "skip", why: "identity-of-empty-fresh-lists-unspecified"}
+	}
 	switch ex.kind {
 	case "skip":
 		e.res.Histogram["outside-domain:"+ex.why]++
@@ -631,7 +652,7 @@ func c01One(e *env, c *xcase, sd, st specResult) {
 	}
 
 	// --- closed expressions: the VALUE (kind included) through soyhtml.EvalExpr ---
-	if c.closed && st.class != "outofmodel" {
+	if c.closed && !c.emptyIdentity && st.class != "outofmodel" {
 		node, perr := parse.Expr(c.text)
 		if perr != nil {
 			c01Fail(e, hx.Violation{Kind: "oracle", What: "parse.Expr rejects a valid expression", Case: rc(), Observed: errStr(perr)}, xCompileFinding(c))
@@ -663,6 +684,27 @@ func c01One(e *env, c *xcase, sd, st specResult) {
 				}
 			}
 		}
+	}
+}
+
+var c01Abort bool
+
+// renderWithin runs one render in a goroutine so that a render that never returns is reported, not waited for.
+func renderWithin(tofu *soyhtml.Tofu, name string, d data.Map, ij data.Map, limit time.Duration) (out string, err error, hung bool) {
+	type res struct {
+		out string
+		err error
+	}
+	ch := make(chan res, 1)
+	go func() {
+		o, e := render(tofu, name, d, ij)
+		ch <- res{o, e}
+	}()
+	select {
+	case r := <-ch:
+		return r.out, r.err, false
+	case <-time.After(limit):
+		return "", nil, true
 	}
 }
 
